@@ -2,7 +2,7 @@ SPECIFICATION FairSpec
 CONSTANTS
   Kinds = {"d", "ad", "r", "adc"}
   MaxLen = 2
-  FaultModes = {"ee", "ww"}
+  FaultModes = {"ew"}
 ACTION_CONSTRAINT StartWhenPolled
 INVARIANT TypeOK
 INVARIANT ErrorReported
